@@ -204,10 +204,17 @@ def judge (g0 : Graph) (opsJ : List Json) (ops : List Op) (obs : List Json) : Li
       | _ => []
   go 1 { graphs := [g0], seen := [] } (opsJ.zip ops) obs
 
-def isFinding (w : String) : Bool := w.startsWith "held-orphan-dropped:"
+def isFinding (w : String) : Bool :=
+  w.startsWith "held-orphan-dropped:" || w.startsWith "restart-unknown-output:"
 
 def handle (i o : Json) : Except String Reply := do
-  if let some r := crashReply? i then return r
+  if let some r := crashReply? i then
+    -- the restart crash of the recorded finding (the harness marks it from the traceback)
+    match jStrField? i "crash_ctx" with
+    | some "restart-unknown-output" =>
+      return { r with why := "restart-unknown-output: the restart after a reload raised " ++
+        ((jStrField? i "crash").getD "") ++ " while restoring the completed outputs of a task whose definition changed" }
+    | _ => return r
   let c ← parseCase i
   let opsJ := (jArrField? i "ops").getD []
   let errs := judge c.graph opsJ c.ops (obsList o)
